@@ -890,10 +890,9 @@ func (m *Machine) DrawFaultOp(t *rapid.T) *FaultOp {
 				}
 			}}
 	case "set-synced-to":
-		h := m.SyncedTo.Height + int32(rapid.IntRange(-1, 1).Draw(t, "syncDelta"))
-		if h < 0 {
-			h = 0
-		}
+		// any height from genesis to one above the tip: moving the tip back by
+		// several blocks also has to forget the hashes above the new tip
+		h := int32(rapid.IntRange(0, int(m.SyncedTo.Height)+1).Draw(t, "syncHeight"))
 		var hash chainhash.Hash
 		hash[0], hash[1], hash[2], hash[3] = byte(h), byte(h>>8), byte(rapid.IntRange(0, 255).Draw(t, "fork")), 0xc1
 		bs := waddrmgr.BlockStamp{Height: h, Hash: hash, Timestamp: m.Birthday}
